@@ -101,3 +101,89 @@ def same_signature(case, mask):
             if a["aid"] == aid and not a.get("inherited") and (a.get("prepare") or a.get("prepare_item")):
                 prepared = True
     return {"kind": "same", "prepared_default": prepared}
+
+
+# ------------------------------------------------------------------ plain subclasses as CONSTRUCTED classes
+# (seeded change C08-E1: the constructor stopped copying keyword arguments when type(self) is a
+# plain subclass of the class that owns the generated __init__)
+SPEC_OF = {4: 2, 5: 2, 6: 3, 7: 3}     # plain class -> the spec class whose metadata / __init__ it shares
+MUTABLE_AIDS = (4, 50, 51, 52, 53, 54)
+
+
+class FamHist(ig.Hist):
+    """Hist over the plain family: K4 / K5 manage what K2 manages, K6 / K7 what K3 manages"""
+
+    def attrs_of(self, cid):
+        return ig.Hist.attrs_of(self, SPEC_OF.get(cid, cid))
+
+
+def plain_family_table(rng):
+    """c02 table (K1 leaf, K2 node, K3 spec subclass) plus K4 = plain subclass of K2, K5 = plain
+    subclass of K4 (second level), K6 = plain subclass of the spec subclass K3, K7 = plain subclass
+    of K6; each plain class may override scalar and mutable defaults by class attributes"""
+    while True:
+        t = c02_gen.gen_table_c02(rng, mutable_override=0.4, flavour="plain")
+        if not t[1]["frozen"] or rng.random() < 0.1:
+            break
+    frozen = t[1]["frozen"]
+
+    def overrides():
+        ov = []
+        if rng.random() < 0.4:
+            ov.append({"aid": 1, "inherited": True, "override": V(rng.choice([8, 9]))})
+        if rng.random() < 0.4:
+            ov.append({"aid": 50, "inherited": True, "override": ("list", [V(rng.choice([5, 6]))])})
+        if rng.random() < 0.3:
+            ov.append({"aid": 51, "inherited": True, "override": ("dict", [(S(9), V(3))])})
+        return ov
+    for cid, base in ((5, 4), (6, 3), (7, 6)):
+        t.append({"id": cid, "base": base, "kind": "plain", "frozen": frozen, "frozen_inherited": True,
+                  "attrs": overrides()})
+    return t
+
+
+def gen_case_plain_ctor(rng, n_ops=4):
+    """two (or three) peers - instances of plain subclasses, one and two levels, below a spec class
+    and below a spec subclass, and of the spec classes themselves - built from the SAME mutable
+    argument objects (list / dict / set of scalars, nested spec instance, list / dict of spec
+    instances), then in-place mutation through every holder (peers, and the nested argument
+    instances themselves), deletion / reset, and a further peer from the same arguments"""
+    table = plain_family_table(rng)
+    _, heap0 = ic.resolve_table(table)
+    nd = len(heap0)
+    h = FamHist(rng, table, nd)
+    plain_first = rng.choice([4, 5, 6, 7])
+    second = rng.choice([plain_first, plain_first, rng.choice([2, 3, 4, 5, 6, 7])])
+    common = [a for a in h.attrs_of(2) if a["aid"] in MUTABLE_AIDS]
+    chosen = rng.sample(common, rng.choice([1, 1, 2, 3]))
+    kw = [(a["aid"], h.value_for(a)) for a in chosen]      # argument objects: roots the caller keeps
+    nested_args = [v[1] for _, v in kw if v[0] == "root" and h.kinds[v[1]][0] == "inst"]
+    extra_scalar = [(1, V(rng.choice([1, 2])))] if rng.random() < 0.5 else []
+    peers = []
+    for cid in (plain_first, second):
+        k = list(kw) + extra_scalar
+        rng.shuffle(k)
+        peers.append((h.add(("construct", cid, None, k), ("inst", cid)), cid))
+    frozen = class_frozen(table, 2)
+    for _ in range(n_ops):
+        x, cid = rng.choice(peers)
+        r = rng.random()
+        if r < 0.35:
+            h.item_helper(x, cid, 0.0, 1.0)
+        elif r < 0.55:
+            h.scalar_helper(x, cid, 0.0, 1.0)
+        elif r < 0.65 and nested_args:          # the caller mutates the instance it handed in
+            y = rng.choice(nested_args)
+            h.add(("helper", y, ("with", 1), {"inplace": True, "pos": [V(rng.choice([5, 6]))]}), ("inst", 1))
+        elif r < 0.75 and not frozen:
+            a = rng.choice(chosen)
+            h.add(("delattr", x, a["aid"]), ("none",))
+        elif r < 0.85:
+            a = rng.choice(chosen)
+            h.add(("helper", x, ("reset", a["aid"]), {"inplace": not frozen}), ("inst", cid))
+        else:                                   # a further peer from the same argument objects
+            cid2 = rng.choice([4, 5, 6, 7])
+            k = list(kw)
+            rng.shuffle(k)
+            peers.append((h.add(("construct", cid2, None, k), ("inst", cid2)), cid2))
+    return {"table": table, "ops": h.ops, "nd": nd}
